@@ -24,22 +24,25 @@ type Violation struct {
 
 // Result is what one simulated run produced.
 type Result struct {
-	Violation   *Violation     `json:"violation,omitempty"`
-	Infra       string         `json:"infra,omitempty"` // harness trouble (never a violation)
-	OverBudget  bool           `json:"over_budget,omitempty"`
-	Deadlock    string         `json:"deadlock,omitempty"`
-	Steps       int            `json:"steps"`
-	SchedHash   uint64         `json:"sched_hash"`
-	EventHash   uint64         `json:"event_hash"`
-	SimTime     time.Duration  `json:"sim_time"`
-	Probes      map[string]int `json:"probes,omitempty"`
-	Faults      map[string]int `json:"faults,omitempty"`
-	Passthrough int            `json:"passthrough"`
-	Tasks       int            `json:"tasks"`
-	Decisions   []int32        `json:"-"`
-	Trace       []Decision     `json:"-"`
-	Events      []string       `json:"-"`
-	Labels      map[string]int `json:"-"`
+	Violation  *Violation `json:"violation,omitempty"`
+	Infra      string     `json:"infra,omitempty"` // harness trouble (never a violation)
+	OverBudget bool       `json:"over_budget,omitempty"`
+	Deadlock   string     `json:"deadlock,omitempty"`
+	// FrameworkPanic: a call of the public API made by the workload panicked inside the code of
+	// the repository (the panic was raised there, not in the harness)
+	FrameworkPanic string         `json:"framework_panic,omitempty"`
+	Steps          int            `json:"steps"`
+	SchedHash      uint64         `json:"sched_hash"`
+	EventHash      uint64         `json:"event_hash"`
+	SimTime        time.Duration  `json:"sim_time"`
+	Probes         map[string]int `json:"probes,omitempty"`
+	Faults         map[string]int `json:"faults,omitempty"`
+	Passthrough    int            `json:"passthrough"`
+	Tasks          int            `json:"tasks"`
+	Decisions      []int32        `json:"-"`
+	Trace          []Decision     `json:"-"`
+	Events         []string       `json:"-"`
+	Labels         map[string]int `json:"-"`
 }
 
 // Env is handed to the workload of a simulated run.
@@ -49,6 +52,7 @@ type Env struct {
 	R *Rand
 
 	mu             sync.Mutex
+	fwPanic        string
 	viol           *Violation
 	probes         map[string]int
 	faults         map[string]int
@@ -263,6 +267,7 @@ func RunBubble(t *testing.T, spec SchedSpec, seed uint64, body func(e *Env)) (re
 			env.mu.Lock()
 			res.Violation = env.viol
 			res.Infra = env.infra
+			res.FrameworkPanic = env.fwPanic
 			res.Probes = env.probes
 			res.Faults = env.faults
 			res.Events = env.events
@@ -304,7 +309,17 @@ func RunBubble(t *testing.T, spec SchedSpec, seed uint64, body func(e *Env)) (re
 			defer close(s.done)
 			defer func() {
 				if r := recover(); r != nil {
-					env.Infra(fmt.Sprintf("panic in workload: %v\n%s", r, debug.Stack()))
+					st := string(debug.Stack())
+					if where, internal := panicOrigin(st); internal {
+						env.mu.Lock()
+						if env.fwPanic == "" {
+							env.fwPanic = fmt.Sprintf("%v [raised at%s]", r, where)
+						}
+						env.mu.Unlock()
+						env.S.RequestAbort()
+						return
+					}
+					env.Infra(fmt.Sprintf("panic in workload: %v\n%s", r, st))
 				}
 			}()
 			body(env)
